@@ -11,7 +11,7 @@ FUNCTIONS = ['emd.cycles.get_cycle_stat', 'emd._cycles_support.get_cycle_stat_fr
              'emd.cycles._ensure_cycle_inputs / IterateCycles', 'emd.spectra.define_hist_bins',
              'emd.support.ensure_vector / ensure_equal_dims']
 BOUNDS = {
-    'quick': 'get_cycle_stat: every label vector over N <= 5 samples satisfying the cycle-vector invariant with -1 gaps anywhere '
+    'quick': 'get_cycle_stat: every label vector over N <= 5 samples with labels 0..K-1 in temporal order and -1 gaps anywhere, also inside a cycle '
              '(symbolic gap/break flags), symbolic real values, functions {mean,max,sum,len,first,last-first}, both output modes; '
              'phase_align (linear kind): two cycles of 2-3 samples, symbolic strictly increasing phases, x = a*phase+b with '
              'a,b from a small concrete grid, npoints in {2,4}; bin_by_phase: N <= 3 symbolic phases and values, nbins in {2,3,4}',
@@ -19,9 +19,9 @@ BOUNDS = {
 }
 OUTSIDE = 'long cycles, non-linear interpolation kinds and non-linear functions of phase (interpolation error), weights, ' \
           'variance outputs of bin_by_phase, augmented mode'
-ASSUMPTIONS = ['label vectors satisfy the cycle-vector invariant (0..K-1 in order, contiguous) with arbitrary -1 gaps',
+ASSUMPTIONS = ['label vectors: labels 0..K-1 in temporal order, every label present, arbitrary -1 gaps (also interrupting a cycle); interleaved/revisited labels are outside',
                'interp1d(linear, extrapolate) modelled as piecewise-linear interpolation (validated by concrete replays)']
-REQUIRED_CLASSES = ['stat:has-gap', 'stat:two-cycles', 'align:run', 'bin:empty-bin', 'bin:last-bin-used']
+REQUIRED_CLASSES = ['stat:has-gap', 'stat:two-cycles', 'stat:cycle-resumes-after-gap', 'align:run', 'bin:empty-bin', 'bin:last-bin-used']
 EXPECTED_LABELS = ['stat-never-raises', 'stat-per-cycle', 'stat-samples-projection', 'align-never-raises', 'align-linear-exact',
                    'bin-never-raises', 'bin-means']
 BUDGET_S = {'quick': 150, 'thorough': 1500}
@@ -62,22 +62,32 @@ def configs(tier):
 
 
 def label_vector(h, N):
+    """label vectors 0..K-1 in temporal order with -1 gaps anywhere - also inside a cycle (a cycle may resume after a gap)"""
     g = h.bools('gap', N)
     b = h.bools('brk', N)
+    r = h.bools('res', N)
     labels = []
     cur = -1
     prev_gap = True
     for i in range(N):
         if bool(g[i]):
             h.assume(~b[i] if h.symbolic else not b[i])
+            h.assume(~r[i] if h.symbolic else not r[i])
             labels.append(-1)
             prev_gap = True
         else:
             if prev_gap:
                 h.assume(~b[i] if h.symbolic else not b[i])
-                cur += 1
-            elif bool(b[i]):
-                cur += 1
+                if cur >= 0 and bool(r[i]):
+                    h.note('stat:cycle-resumes-after-gap')      # same cycle continues after an interior gap
+                else:
+                    if cur < 0:
+                        h.assume(~r[i] if h.symbolic else not r[i])
+                    cur += 1
+            else:
+                h.assume(~r[i] if h.symbolic else not r[i])
+                if bool(b[i]):
+                    cur += 1
             labels.append(cur)
             prev_gap = False
     return labels, cur + 1
